@@ -123,10 +123,11 @@ def run(tier):
     cases = []
     uniq = itertools.count()
 
-    def offer(s_classes, text, pos, path, before=None):
-        """deliver one candidate; returns the case dict.  before: a field declared in front of the candidate"""
+    def offer(s_classes, text, pos, path, before=None, empty=False):
+        """deliver one candidate; returns the case dict.  before: a field declared in front of the candidate;
+        empty: a type name offered together with an EMPTY field list"""
         u = next(uniq)
-        declared = [("string", text)] if pos == "field" else [("string", "f0")]
+        declared = [("string", text)] if pos == "field" else ([] if empty else [("string", "f0")])
         if before:
             declared = [("string", before)] + declared
         tname = f"t/n{u}" if pos == "field" else text
@@ -148,6 +149,20 @@ def run(tier):
                 data = rc.header_frame() + rc.descriptor_frame(tname, declared) + rc.record_frame(tname, declared, ["v"] * len(declared) + [None, None, None, 1])
                 recs = list(RecordStreamReader(io.BytesIO(data)))
                 desc = recs[0]._desc if recs else None
+                if desc is None:
+                    raise ValueError("no record yielded")
+            elif path == "framebin":
+                # the same frame with every name in msgpack's BIN family (streams of the Python 2 era carry them so): the bytes
+                # are the UTF-8 of the candidate -- a reader that drops or replaces bytes it cannot read changes the name
+                B = rc.Bin
+                enc = lambda x: B(x.encode("utf-8", "surrogateescape"))
+                dfr = rc.frame(rc.ext(rc.T_DESC, [enc(tname), [[enc(t), enc(n)] for t, n in declared]]))
+                rfr = rc.frame(rc.ext(rc.T_RECORD, [[enc(tname), rc.descriptor_hash(tname, declared)], ["v"] * len(declared) + [None, None, None, 1]]))
+                rd0 = RecordStreamReader(io.BytesIO(rc.header_frame() + dfr))
+                list(rd0)                                   # the definition alone: refused (raises) or registered
+                reg = [d for d in getattr(getattr(rd0, "packer", None), "descriptors", {}).values()]
+                recs = list(RecordStreamReader(io.BytesIO(rc.header_frame() + dfr + rfr))) if not reg or reg[0].name == tname else []
+                desc = recs[0]._desc if recs else (reg[0] if reg else None)       # registered under ANOTHER name: accepted as something else
                 if desc is None:
                     raise ValueError("no record yielded")
             elif path == "json":
@@ -235,7 +250,7 @@ def run(tier):
             for pos in ("field", "type"):
                 if "/" in text and pos == "field":
                     continue
-                for path in ("ctor", "frame", "json", "ctorstr"):
+                for path in ("ctor", "frame", "framebin", "json", "ctorstr"):
                     if path == "ctorstr" and not str_form_ok(text, pos):
                         continue
                     cases.append(offer(classes_of(text), text, pos, path))
@@ -265,13 +280,23 @@ def run(tier):
     # (3) hostile payloads and special names, all paths (class-string computed from the text)
     specials = PAYLOADS + ["RECORD_VERSION", "Record", "self", "cls", "args", "kwargs", "k", "v", "f", "values", "class", "from", "None", "True", "x" * 200, "a" * 254, "A/b/C_1", "a/b/", "/a", "a//b", "_a", "a_", "a1", "1a"]
     specials += ["test/1abc", "_private/x", "test//a", "test/a/", "t\u00e9st/a", "test/a\rimport os", "a\rb", "a/b\x0bc", "a/b\x0cc", "a/b\x1cc", "a/b\x85c", "a/b\u2028c"]
+    specials += ["test/\udcffvil", "str\udcffing", "a\udc80", "test/\u202eevil", "caf\u00e9"]           # (undecodable bytes, as surrogate escapes)
     for text in specials:
         for pos in ("field", "type"):
-            for path in ("ctor", "frame", "json", "avro", "ctorstr"):
+            for path in ("ctor", "frame", "framebin", "json", "avro", "ctorstr"):
+                if path in ("json", "avro", "ctor", "ctorstr", "frame") and any(0xDC80 <= ord(ch) <= 0xDCFF for ch in text):
+                    continue          # raw undecodable bytes can only be delivered in the BIN family
                 if path == "ctorstr" and not str_form_ok(text, pos):
                     continue
                 cases.append(offer(classes_of(text), text, pos, path))
                 ctx.case((pos, text, path))
+    # (3b) type names offered with an EMPTY field list (a boundary of its own: nothing but the name is there to be looked at)
+    ws_names = ["test/a\n    string smuggled;", "test/a\nstring x;\nvarint y;", " test/a", "test/a ", "\ttest/a", "test/a\r\n", "test/a\n", "\ntest/a", "test/a\x00", "test /a", "test/a;",
+                "test/a\n\n", "test/\x0ba"] + [t for t in PAYLOADS if isinstance(t, str)][:12] + ["test/ok", "ok"]
+    for text in ws_names:
+        for path in ("ctor", "frame", "framebin", "json"):
+            cases.append(offer(classes_of(text), text, "type", path, empty=True))
+            ctx.case(("type-with-empty-field-list", text, path))
     # (5) history: a VALID definition is read first; then, with new readers, definitions whose strings are another cut of
     #     the same characters (hence the same name + hash identifier) arrive through the frame and the JSON route
     from flow.record.whitelist import WHITELIST as WL
